@@ -53,15 +53,26 @@ def rand_input(rng, universe=64, types=None):
     return ty, str(lit)
 
 
-P_CHOICES = [("3f800000", 1.0), ("3f000000", 0.5), ("3dcccccd", None), ("3a83126f", None), ("3f7fffff", None)]
+P_CHOICES = [("3f800000", 1.0), ("3f000000", 0.5), ("3dcccccd", None), ("3a83126f", None), ("3f7fffff", None),
+             ("1e3ce508", None), ("00000001", None)]     # 1e-20f and the smallest denormal: p * 2^63 truncates to 0
 
 
 def p_float(hexbits):
     return struct.unpack("<f", struct.pack("<I", int(hexbits, 16)))[0]
 
 
+def theta0_floor():
+    """smallest starting theta, read from the header shape by tools/trules/theta.py (0 pinned, 1 repaired)"""
+    import os, re
+    try:
+        t = open(os.path.join(os.path.dirname(os.path.dirname(os.path.abspath(__file__))), "lean", "DSGen", "Theta.lean")).read()
+        return int(re.search(r"def theta_STARTING_THETA_FLOOR : Nat := (\d+)", t).group(1))
+    except Exception:
+        return 0
+
+
 def theta0_of_p(hexbits):
     p = p_float(hexbits)
     if p < 1:
-        return int(float(2**63) * p)
+        return max(theta0_floor(), int(float(2**63) * p))
     return 2**63 - 1
